@@ -4,6 +4,7 @@ pub mod consts;
 pub mod crc;
 pub mod de;
 pub mod ocf;
+pub mod schema;
 pub mod ser;
 
 pub use consts::dump_constants;
@@ -13,9 +14,12 @@ pub fn generate(stream: &str, seed: u64, n: usize, emit: &mut dyn FnMut(String))
 		"ser" | "ser-valid" | "ser-mut" | "ser-sink" => ser::generate(stream, seed, n, emit),
 		"crc" => crc::generate(seed, n, emit),
 		"rt" => ser::generate_rt(seed, n, emit),
+		"schema" | "schema-bad" => schema::generate(stream, seed, n, emit),
+		"graph" | "graph-wild" => schema::generate_graph(stream, seed, n, emit),
 		"reuse" => ser::generate_reuse(seed, n, emit),
 		"perm" => ser::generate_perm(seed, n, emit),
 		"c11" => de::generate_c11(seed, n, emit),
+		"de-alloc" => de::generate_alloc(seed, n, emit),
 		"ocfw" | "ocfw-sink" => ocf::generate_w(stream, seed, n, emit),
 		"ocfr" | "ocfr-null" | "ocfr-damage" | "ocfd" => ocf::generate_r(stream, seed, n, emit),
 		s if s.starts_with("de") => de::generate(stream, seed, n, emit),
@@ -30,10 +34,13 @@ pub fn run_line(line: &str) -> String {
 		"ser" => ser::run(line),
 		"crc" => crc::run(line),
 		"rt" => ser::run_rt(line),
+		"schema" => schema::run(line),
+		"graph" => schema::run_graph(line),
 		"reuse" => ser::run_reuse(line),
 		"perm" => ser::run_perm(line),
 		"de" => de::run(line),
 		"c11" => de::run_c11(line),
+		"dealloc" => de::run_alloc(line),
 		"ocfw" => ocf::run_w(line),
 		"ocfr" | "ocfd" => ocf::run_r(line),
 		_ => Err(format!("unknown stream {cmd}")),
